@@ -5,7 +5,7 @@ from d3vc import cli, engine
 from d3vc.loader import Repo
 cs = cli.load_contracts()
 c = cs[sys.argv[1]]
-res = engine.explore(c, Repo(loop_contracts=c.loops))
+res = engine.explore(c, Repo(loop_contracts=c.loops, stubs=cli._stubs()))
 print(";; status", res["status"], res["note"], "paths", res["paths"], file=sys.stderr)
 recs = engine.serialise(c, res)
 variant = sys.argv[3] if len(sys.argv) > 3 else "use"
